@@ -123,3 +123,46 @@ Proof.
     apply (Hperm (fun k => valid_bin nbin (bn k)) (fun k => valid_bin nbin (bin_index dmin bsize (fget x k)))).
     intros k Hk. rewrite (K3 k Hk). reflexivity.
 Qed.
+
+(* ---------------------------------------------------------------- which inputs are rejected, with which class *)
+Lemma limits_rejections x s lo hi e : limits x s lo hi = Err e ->
+  (e = EIndex /\ s = [] /\ (lo = None \/ hi = None))
+  \/ (e = EValue /\ (lo <> None \/ hi <> None)
+      /\ exists xmin xmax, filter (fun k => within xmin xmax (fget x k)) s = []
+                           /\ xmin = match lo with Some v => v | None => fget x (hd 0 s) end
+                           /\ xmax = match hi with Some v => v | None => fget x (last s 0) end).
+Proof.
+  unfold limits. intros E.
+  destruct s as [|k0 t]; destruct lo as [l|], hi as [h|]; cbn -[filter last] in E; try discriminate E;
+    try (injection E as <-; left; repeat split; auto; fail);
+    (destruct (filter _ _) eqn:F in E; [|discriminate E]); injection E as <-; right;
+    (split; [reflexivity|]); (split; [try (left; discriminate); right; discriminate|]);
+    eexists; eexists; (split; [exact F|]); split; reflexivity.
+Qed.
+
+Theorem histogram_rejections eng x lo hi m e : histogram eng x lo hi m = Err e ->
+  (e = EIndex /\ x = [] /\ (lo = None \/ hi = None))
+  \/ (e = EValue /\ (lo <> None \/ hi <> None)
+      /\ exists xmin xmax, filter (fun k => within xmin xmax (fget x k)) (argsort x) = []
+                           /\ xmin = match lo with Some v => v | None => fget x (hd 0 (argsort x)) end
+                           /\ xmax = match hi with Some v => v | None => fget x (last (argsort x) 0) end)
+  \/ (e = EValue /\ exists dmin dmax w b nb, limits x (argsort x) lo hi = Ok (dmin, dmax, w)
+                                            /\ derive dmin dmax m = Ok (b, nb) /\ nb < 0)
+  \/ (e = EOther /\ m = ByNbin 0 /\ exists r, limits x (argsort x) lo hi = Ok r).
+Proof.
+  unfold histogram. intros H.
+  destruct (limits x (argsort x) lo hi) as [[[dmin dmax] w]|e'] eqn:L.
+  - destruct (derive dmin dmax m) as [[b nb]|e''] eqn:D.
+    + destruct (nb <? 0) eqn:N.
+      * injection H as <-. right. right. left. split; [reflexivity|].
+        exists dmin, dmax, w, b, nb. repeat split; auto. lia.
+      * destruct (match eng with EngC => chist _ _ w | EngPy => pyhist _ _ w end). discriminate H.
+    + injection H as <-. right. right. right. unfold derive in D. destruct m as [b|n]; [discriminate D|].
+      destruct (n =? 0) eqn:Z0; [|discriminate D]. injection D as <-. apply Z.eqb_eq in Z0. subst n.
+      split; [reflexivity|]. split; [reflexivity|]. eexists. reflexivity.
+  - injection H as <-. destruct (limits_rejections x (argsort x) lo hi e' L) as [(E1 & E2 & E3)|(E1 & E2 & E3)].
+    + left. split; [exact E1|]. split; [|exact E3].
+      pose proof (argsort_perm x) as P. rewrite E2 in P. apply Permutation_nil in P.
+      destruct x; [reflexivity|discriminate P].
+    + right. left. auto.
+Qed.
